@@ -4,6 +4,7 @@
    setting; newlines, quotes, non-ASCII characters in strings do not break line framing, and files larger
    than the read chunk are reassembled.
    What is proved: the rxsci logic (per-item newline, stage order, file append / 64 KiB read = a re-chunking,
+   also over a raw stream that returns short reads,
    line unframing - reusing the C15 theorem -, skip, len(line) > 0 filter, None filter) composes to the
    identity for ALL object lists and ALL chunkings of the file, GIVEN the premises below about the
    libraries: orjson (loads(dumps o) = o, dumps o has no raw newline and is non-empty), the incremental text
@@ -55,6 +56,50 @@ Theorem C19_load_from_file_dump_to_file_partial :
 Proof. exact load_from_file_dump_to_file_objects. Qed.
 Print Assumptions C19_load_from_file_dump_to_file_partial.
 
+(* file.read over a RAW stream (custom open_obj returning an io.RawIOBase-like object): a read call may deliver
+   fewer bytes than asked before the end of the data; caps = what the stream has at hand at each call.  The
+   chunks are the whole file as soon as the loop ran to the end, whatever the short reads were ... *)
+Theorem C19_raw_read_whole : forall (Byte : Type) (size : nat) (caps : list nat) (f : list Byte),
+  length (concat (raw_read Byte size caps f)) = length f -> concat (raw_read Byte size caps f) = f.
+Proof. exact raw_read_whole. Qed.
+Print Assumptions C19_raw_read_whole.
+
+(* ... which happens when every call delivers at least one byte (only an empty read means end of file) *)
+Theorem C19_raw_read_enough : forall (Byte : Type) (size : nat) (caps : list nat) (f : list Byte),
+  0 < size -> Forall (fun c => 0 < c) caps -> length f <= length caps -> concat (raw_read Byte size caps f) = f.
+Proof. exact raw_read_enough. Qed.
+Print Assumptions C19_raw_read_enough.
+
+(* the size-level function evaluated by the correspondence check (raw_sizes) gives the sizes of these chunks *)
+Theorem C19_raw_read_sizes : forall (Byte : Type) (size : nat) (caps : list nat) (f : list Byte),
+  map (fun ch => N.of_nat (length ch)) (raw_read Byte size caps f) =
+  raw_sizes (N.of_nat size) (map N.of_nat caps) (N.of_nat (length f)).
+Proof. exact raw_read_sizes. Qed.
+Print Assumptions C19_raw_read_sizes.
+
+(* the round trip through a raw stream, for every read size and every sequence of short reads of at least one
+   byte each *)
+Theorem C19_load_raw_stream_dump_partial :
+  forall (Obj Ch Byte : Type) (is_nl : Ch -> bool) (nl : Ch) (dumps : Obj -> list Ch)
+         (loads : list Ch -> option Obj) (is_null : Obj -> bool)
+         (encode : list (list Ch) -> list (list Byte)) (decode : list (list Byte) -> option (list (list Ch)))
+         (compress : list (list Byte) -> list (list Byte))
+         (decompress : list (list Byte) -> option (list (list Byte))),
+  is_nl nl = true ->
+  (forall o, loads (dumps o) = Some o) ->
+  (forall o, no_nl Ch is_nl (dumps o)) ->
+  (forall o, dumps o <> []) ->
+  (forall cs r, concat r = concat (encode cs) -> exists cs', decode r = Some cs' /\ concat cs' = concat cs) ->
+  (forall bs r, concat r = concat (compress bs) -> exists bs', decompress r = Some bs' /\ concat bs' = concat bs) ->
+  forall (objs : list Obj) (size : nat) (caps : list nat) (skip : nat) (ign : bool),
+  0 < size -> Forall (fun c => 0 < c) caps ->
+  length (dump_to_file Obj Ch Byte nl dumps encode compress objs) <= length caps ->
+  load_chunks Obj Ch Byte is_nl loads is_null decode decompress skip ign
+    (raw_read Byte size caps (dump_to_file Obj Ch Byte nl dumps encode compress objs)) =
+  (filter (fun o => negb (is_null o)) (skipn skip objs), true).
+Proof. exact load_raw_stream_dump. Qed.
+Print Assumptions C19_load_raw_stream_dump_partial.
+
 (* compression=None satisfies the compression premise *)
 Theorem C19_no_compression_ok : forall (Byte : Type) (bs r : list (list Byte)),
   concat r = concat ((fun x => x) bs) ->
@@ -77,6 +122,11 @@ Example C19_load_example :
 Proof. vm_compute. reflexivity. Qed.
 Example C19_load_error_example :
   z_json_load [([123; 125]%Z, Some 1%N); ([120]%Z, None)] 0 false [[123; 125]; [120]; [123; 125]]%Z = ([1]%N, false).
+Proof. vm_compute. reflexivity. Qed.
+Example C19_raw_read_example : raw_read N 4 [3; 9; 1; 2; 5] [1; 2; 3; 4; 5; 6; 7; 8; 9; 10]%N =
+  [[1; 2; 3]; [4; 5; 6; 7]; [8]; [9; 10]]%N.
+Proof. vm_compute. reflexivity. Qed.
+Example C19_raw_sizes_example : raw_sizes 4 [3; 9; 1; 2; 5]%N 10 = [3; 4; 1; 2]%N.
 Proof. vm_compute. reflexivity. Qed.
 Example C19_len_example : len_run_timed 0 [[2; 3]; [4]; [0; 0; 1]; [0; 0]]%N = [[2]; []; [7; 0]; [1]; []]%N.
 Proof. vm_compute. reflexivity. Qed.
